@@ -149,9 +149,10 @@ static void assemble(const uint8_t* img, size_t footer_start, const ref_buf* foo
 static void splice(const uint8_t* img, size_t n, size_t hoff, size_t hlen, const ref_buf* nh, ref_buf* out) { ref_buf_clear(out); ref_buf_put(out, img, hoff); ref_buf_put(out, nh->p, nh->n); ref_buf_put(out, img + hoff + hlen, n - hoff - hlen); }
 
 typedef void (*emit_fn)(ref_tval* root, const char* what, void* ctx);
-static void mutate_tree(ref_tval* root, const char* origin, emit_fn emit, void* ctx, bool pairs) {
+static bool g_pairs_only;
+static void mutate_tree(ref_tval* root, const char* origin, emit_fn emit, void* ctx, int pairs) {     /* pairs: 0 none, 1 footer alphabet, 2 page-header alphabet */
     g_nsites = 0; collect(root, origin); char what[300];
-    for (int si = 0; si < g_nsites; si++) {
+    for (int si = 0; si < (g_pairs_only ? 0 : g_nsites); si++) {
         ref_tval* v = g_sites[si].v; ref_tval saved = *v;
         switch (v->type) {
         case RT_BYTE: case RT_I16: case RT_I32: case RT_I64:
@@ -193,7 +194,8 @@ static void mutate_tree(ref_tval* root, const char* origin, emit_fn emit, void* 
         *v = saved;
     }
     if (pairs) {      /* all pairs of integer sites over a reduced alphabet */
-        static const int RED[] = { 0, 2, 15, 16, 20, 21, 22, 24 };
+        static const int RED_F[] = { 0, 2, 15, 16, 20, 21, 22, 24 }, RED_P[] = { 0, 2, 1, 10, 14, 15, 20, 4 };   /* page headers: 0, -1, 1, 255, 65536, INT32_MAX, file size, 7 */
+        const int* RED = pairs == 2 ? RED_P : RED_F;
         for (int s1 = 0; s1 < g_nsites; s1++) { ref_tval* a = g_sites[s1].v; if (a->type != RT_I32 && a->type != RT_I64) continue; ref_tval sa = *a;
             for (int s2 = s1 + 1; s2 < g_nsites; s2++) { ref_tval* b = g_sites[s2].v; if (b->type != RT_I32 && b->type != RT_I64) continue; ref_tval sb = *b;
                 for (int x = 0; x < 8; x++) for (int y = 0; y < 8; y++) { int64_t va = g_alpha[RED[x]], vb = g_alpha[RED[y]]; if (a->type == RT_I32) va = (int32_t)va; if (b->type == RT_I32) vb = (int32_t)vb; if (va == sa.i || vb == sb.i) continue; a->i = va; b->i = vb; snprintf(what, sizeof what, "%s=%lld,%s=%lld", g_sites[s1].path, (long long)va, g_sites[s2].path, (long long)vb); emit(root, what, ctx); }
@@ -238,9 +240,9 @@ static void enumerate(void) {
             uint32_t flen = (uint32_t)img.p[img.n - 8] | (uint32_t)img.p[img.n - 7] << 8 | (uint32_t)img.p[img.n - 6] << 16 | (uint32_t)img.p[img.n - 5] << 24;
             ref_tval root; if (ref_thrift_decode(&RA, img.p + rf.footer_start, flen, &root, NULL)) mc_harness_error("footer decode");
             emit_ctx c = { img.p, img.n, rf.footer_start, seed, 0, 0, 0 };
-            mutate_tree(&root, "footer", emit_footer, &c, pass == 1);
+            mutate_tree(&root, "footer", emit_footer, &c, pass == 1 ? 1 : 0);
             if (!pass) {
-                for (int p = 0; p < rf.npages; p++) { ref_tval pr; size_t hu = 0; if (ref_thrift_decode(&RA, img.p + rf.pages[p].header_off, rf.pages[p].body_off - rf.pages[p].header_off, &pr, &hu)) continue; c.hoff = rf.pages[p].header_off; c.hlen = hu; c.page = p; mutate_tree(&pr, "hdr", emit_page, &c, false); }
+                for (int p = 0; p < rf.npages; p++) { ref_tval pr; size_t hu = 0; if (ref_thrift_decode(&RA, img.p + rf.pages[p].header_off, rf.pages[p].body_off - rf.pages[p].header_off, &pr, &hu)) continue; c.hoff = rf.pages[p].header_off; c.hlen = hu; c.page = p; mutate_tree(&pr, "hdr", emit_page, &c, 0); }
                 /* byte-level */
                 uint8_t* m = malloc(img.n); static const uint8_t SUB[] = { 0x00, 0x01, 0x7f, 0x80, 0xff };
                 for (size_t i = 0; i < img.n; i++) for (int s = 0; s < 5; s++) { if (img.p[i] == SUB[s]) continue; if (!mc_next()) continue; memcpy(m, img.p, img.n); m[i] = SUB[s]; char d[96]; snprintf(d, sizeof d, "c04:%s;byte@%zu=%02x", seed, i, SUB[s]); mc_case_key(mc_hash(d, strlen(d), 2)); mc_nontrivial(); mc_feature("byte-mutation"); try_image(m, img.n, d); }
@@ -248,6 +250,16 @@ static void enumerate(void) {
             }
             ref_buf_free(&img); ref_arena_free(&RA);
         }
+    }
+    mc_stage("distance-2.pairs-of-integer-fields-of-one-page-header");
+    for (int k = 0; k < NSEED; k++) {
+        ref_buf img; ref_buf_init(&img); if (make_seed(k, &img)) mc_harness_error("seed %d cannot be built", k);
+        ref_file rf; if (ref_pq_read(&RA, img.p, img.n, &rf, 0)) mc_harness_error("seed %d is rejected by the reference reader: %s", k, rf.err);
+        char seed[24]; snprintf(seed, sizeof seed, "seed%d", k); g_salt = 0xc04 + (uint64_t)k * 7 + 5; set_alphabet(img.n, &rf);
+        emit_ctx c = { img.p, img.n, rf.footer_start, seed, 0, 0, 0 };
+        for (int p = 0; p < rf.npages; p++) { if (!mc_thorough() && p >= 2 && p != rf.npages - 1) continue;     /* quick: first two pages and the last page of every seed */
+            ref_tval pr; size_t hu = 0; if (ref_thrift_decode(&RA, img.p + rf.pages[p].header_off, rf.pages[p].body_off - rf.pages[p].header_off, &pr, &hu)) continue; c.hoff = rf.pages[p].header_off; c.hlen = hu; c.page = p; g_pairs_only = true; mutate_tree(&pr, "hdr", emit_page, &c, 2); g_pairs_only = false; }
+        ref_buf_free(&img); ref_arena_free(&RA);
     }
     mc_stage("families.nesting-depth.payload-free-counts");
     { ref_buf img; ref_buf_init(&img); if (make_seed(0, &img)) mc_harness_error("seed"); ref_file rf; if (ref_pq_read(&RA, img.p, img.n, &rf, 0)) mc_harness_error("seed0");
